@@ -80,7 +80,21 @@ CheckRange(c) ==
     ELSE IF ~AllowedTagging(Decode(c.stream), Decode(c.stream2), c.range[1], c.range[2]) THEN "rej:C18_Tagging"
     ELSE IF Decode(c.stream) = Decode(c.stream2) THEN "ok:untagged" ELSE "ok:tagged"
 
-Check(c) == IF c.mode = "abs" THEN CheckAbs(c) ELSE IF c.mode = "pair" THEN CheckPair(c)
+\* mode "scale" (C08, C10 "of any length"): the text is c.lines repeated c.reps times (after a label line);
+\* the stream must be the encoding of the block's instructions repeated c.reps times -- checked
+\* block by block, without building the whole expected string
+CheckScale(c) ==
+    LET T  == TextInsns(c.lines)
+        E  == [n \in DOMAIN T |-> Ins(T[n].addr, StreamMn(T[n].mn), [k \in DOMAIN T[n].ops |-> NormOfText(T[n].ops[k]).v])]
+        eb == Encode(E)
+        lb == Len(eb)
+    IN IF c.outcome # "ok" THEN "rej:C08_ParserFailed"
+       ELSE IF \E n \in DOMAIN T : \E k \in DOMAIN T[n].ops : ~NormOfText(T[n].ops[k]).ok THEN "rej:MACHINERY_BlockOutsideC09"
+       ELSE IF Len(c.stream) # c.reps * lb THEN "rej:C08_Count"
+       ELSE IF \E j \in 0..(c.reps - 1) : SubSeq(c.stream, j * lb + 1, (j + 1) * lb) # eb THEN "rej:C10_Encoding"
+       ELSE "ok"
+
+Check(c) == IF c.mode = "abs" THEN CheckAbs(c) ELSE IF c.mode = "pair" THEN CheckPair(c) ELSE IF c.mode = "scale" THEN CheckScale(c)
             ELSE IF c.mode = "range" THEN CheckRange(c) ELSE CheckText(c)
 
 (***************************************************************************)
